@@ -200,6 +200,7 @@ struct Handler {
     cells: Vec<(String, String)>,
     trace_events: usize,
     loops: usize,
+    closures: Vec<String>, // closure literals left in the body (no rule consumed them)
 }
 #[derive(Default)]
 struct Ctx {
@@ -256,6 +257,11 @@ impl Rewriter {
         self.visit_block_mut(&mut blk);
         let mut h = Hoister { n: 0, unsupported: vec![] };
         h.block(&mut blk);
+        // a closure literal that no rule has consumed is handed to a function the verifier knows nothing about:
+        // obligations that depend on it would fail for no reason, so the unit is left undecided instead
+        let mut cf = ClosureFinder { found: vec![] };
+        cf.visit_block(&blk);
+        let unmodelled = cf.found;
         if self.interfere {
             let mut itf = Interferer { unsupported: vec![], conds: 0 };
             itf.visit_block_mut(&mut blk);
@@ -269,6 +275,7 @@ impl Rewriter {
         hd.cells = ctx.cells;
         hd.trace_events = ctx.trace_events;
         hd.loops = ctx.loops;
+        hd.closures = unmodelled;
         label
     }
     fn next_loop(&mut self) -> usize {
@@ -446,6 +453,12 @@ impl VisitMut for Rewriter {
                             self.arc_vars.insert(n.clone());
                         }
                     }
+                    // `let x = Arc::new(E);`: the Arc layer is dropped, so is a later `*x`
+                    if let Expr::Call(c) = strip_parens(&init.expr) {
+                        if ts(&c.func) == "Arc::new" && c.args.len() == 1 {
+                            self.arc_vars.insert(n.clone());
+                        }
+                    }
                 }
                 let saved = self.current_let.take();
                 self.current_let = name.clone();
@@ -551,6 +564,28 @@ impl VisitMut for Rewriter {
                 // one atomic read-copy-update step (the closure is pure; arc-swap retries it until its
                 // compare-and-swap succeeds); the value of the expression is the previous content
                 *e = parse_quote! { atomic({ let __old = #recv.load(h); let __new = { let #pid = &__old; #body }; #recv.store(h, __new); __old }) };
+                return;
+            }
+            // R16 `b.then(|| E)` / `b.then_some(E)`: the verifier knows nothing about a closure handed to a library
+            // function, so the conditional is spelled out (lazy, resp. eager, evaluation of E is kept)
+            if m.method == "then" && m.args.len() == 1 {
+                if let Some(clo) = strip_container(&m.args[0]) {
+                    if clo.inputs.is_empty() {
+                        let mut recv = (*m.receiver).clone();
+                        self.visit_expr_mut(&mut recv);
+                        let mut body = (*clo.body).clone();
+                        self.visit_expr_mut(&mut body);
+                        *e = parse_quote! { (if #recv { Some(#body) } else { None }) };
+                        return;
+                    }
+                }
+            }
+            if m.method == "then_some" && m.args.len() == 1 {
+                let mut recv = (*m.receiver).clone();
+                self.visit_expr_mut(&mut recv);
+                let mut arg = m.args[0].clone();
+                self.visit_expr_mut(&mut arg);
+                *e = parse_quote! { ({ let __c = #recv; let __t = #arg; if __c { Some(__t) } else { None } }) };
                 return;
             }
             // R4f `X.fetch_update(set_order, fetch_order, |p| B)`: one atomic read-modify-write step
@@ -676,6 +711,7 @@ impl VisitMut for Rewriter {
                 if matches!(strip_parens(&f.expr), Expr::Range(_)) {
                     self.visit_expr_mut(&mut f.expr);
                     self.visit_block_mut(&mut f.body);
+                    f.body.stmts = elim_continue(std::mem::take(&mut f.body.stmts)); // R17
                     f.body.stmts.insert(0, parse_quote! { __inv!(#kk); });
                 } else {
                     let mut it = (*f.expr).clone();
@@ -692,9 +728,16 @@ impl VisitMut for Rewriter {
                     let pat = f.pat.clone();
                     let mut body = f.body.clone();
                     self.visit_block_mut(&mut body);
+                    // R17 `if C { continue; }` at the top level of the loop body: the rest of the body runs under `!C`
+                    // (the verifier has no `continue` in for-loops)
+                    body.stmts = elim_continue(std::mem::take(&mut body.stmts));
                     let itn = format_ident!("__it{}", k);
                     let kn = format_ident!("__k{}", k);
                     let stmts = &body.stmts;
+                    // a plain variable is iterated by reference (it may be used again inside the loop)
+                    if matches!(it, Expr::Path(_)) {
+                        it = parse_quote! { &#it };
+                    }
                     *e = parse_quote! { { let #itn = #it; for #kn in 0..#itn.len() { __inv!(#kk); let #pat = #itn.at(#kn); #(#stmts)* } } };
                 }
                 return;
@@ -778,6 +821,15 @@ impl VisitMut for Rewriter {
                 let fs = ts(&c.func);
                 if fs == "Arc::clone" && c.args.len() == 1 {
                     let a = &c.args[0];
+                    // (an Arc of a plain value, `let x = Arc::new(E)` / `CELL.load_full()`: the alias is an equal value)
+                    if let Expr::Reference(r) = strip_parens(a) {
+                        if let Some(n) = single_ident(strip_parens(&r.expr)) {
+                            if self.arc_vars.contains(&n) {
+                                *e = parse_quote! { clone_val(#a) };
+                                return;
+                            }
+                        }
+                    }
                     *e = parse_quote! { arc_clone(#a) }; // R3
                     return;
                 }
@@ -976,6 +1028,29 @@ impl Hoister {
 // ---------------------------------------------------------------- profile T: interference points
 /// `interfere(h, g, c);` in front of every statement whose own evaluation (not that of its nested
 /// blocks) touches the shared heap: other threads may take any number of atomic steps there.
+fn elim_continue(stmts: Vec<Stmt>) -> Vec<Stmt> {
+    let is_continue_block = |b: &Block| b.stmts.len() == 1 && matches!(&b.stmts[0], Stmt::Expr(Expr::Continue(c), _) if c.label.is_none());
+    let mut out = vec![];
+    let mut it = stmts.into_iter();
+    while let Some(st) = it.next() {
+        if let Stmt::Expr(Expr::If(i), _) = &st {
+            if i.else_branch.is_none() && is_continue_block(&i.then_branch) {
+                let cond = &i.cond;
+                let rest = elim_continue(it.collect());
+                out.push(parse_quote! { if !(#cond) { #(#rest)* } });
+                return out;
+            }
+        }
+        out.push(st);
+    }
+    out
+}
+struct ClosureFinder { found: Vec<String> }
+impl<'ast> syn::visit::Visit<'ast> for ClosureFinder {
+    fn visit_expr_closure(&mut self, c: &'ast syn::ExprClosure) {
+        self.found.push(ts(c).chars().take(80).collect());
+    }
+}
 struct Interferer { unsupported: Vec<String>, conds: usize }
 /// number of shared-heap accesses in the head of a statement (not in its nested blocks); an
 /// `atomic(..)` step counts as one
@@ -1319,7 +1394,7 @@ fn main() {
         handlers.push(serde_json::json!({
             "label": h.label, "kind": h.kind, "params": h.params, "body": text,
             "cells": h.cells.iter().map(|(n, k)| serde_json::json!({"name": n, "kind": k})).collect::<Vec<_>>(),
-            "trace_events": h.trace_events, "loops": h.loops,
+            "trace_events": h.trace_events, "loops": h.loops, "unmodelled_closures": h.closures,
         }));
     }
     if op == "combine" {
